@@ -746,26 +746,33 @@ fn update_case(old: &str, new: &str, attrs: &[Attribution], author: &str, ts: u1
                 oracles.push(oracle("identity_segments", one_equal, json!({"input": witness, "segs": jsegs(&segs)}), "contract:identity-segments"));
                 let same = before == after;
                 let inverted = attrs.iter().any(|a| a.start > a.end);
-                let zero_len = attrs.iter().any(|a| a.start == a.end && a.start < old.len());
-                let ts_shared = attrs.iter().any(|a| attrs.iter().any(|b| a.ts == b.ts && a.author_id != b.author_id));
+                if attrs.iter().any(|a| a.start == a.end && a.start < old.len()) {
+                    tags.push("identity-prior:zero-length".into());
+                }
+                if attrs.iter().any(|a| attrs.iter().any(|b| a.ts == b.ts && a.author_id != b.author_id)) {
+                    tags.push("identity-prior:ts-shared-by-authors".into());
+                }
+                if attrs.iter().any(|a| a.end > old.len()) {
+                    tags.push("identity-prior:past-end".into());
+                }
                 if inverted {
-                    // not in the property's quantifier (a range with end < start)
+                    // not in the property's quantifier (a range with end < start): dropped by the
+                    // identity update, a candidate of the projection on a blank line it straddles
+                    // (Props/C16.lean witness_identity_inverted)
                     tags.push(format!("identity-inverted-prior:{}", if same { "same" } else { "differs" }));
                 } else {
-                    let n_lines = line_ranges(old).len();
-                    let authors_of = |v: &Vec<LineAttribution>| -> Vec<Option<String>> { expand_lines(v, n_lines).into_iter().map(|x| x.map(|y| y.0)).collect() };
-                    let same_authors = authors_of(before) == authors_of(after);
-                    let sig = if zero_len {
-                        "identity:zero-length-prior"
-                    } else if same_authors && !same {
-                        // every line keeps its author; only `overrode` differs
-                        "identity:overrode-depends-on-prior-order"
-                    } else if ts_shared {
-                        "identity:timestamp-shared-by-authors"
-                    } else {
-                        "identity"
-                    };
-                    oracles.push(oracle("identity_keeps_lines", same, json!({"input": witness, "before": jlines(before), "after": jlines(after)}), sig));
+                    // every non-inverted prior list: zero-length markers, several authors per
+                    // timestamp, ranges past the end (the three former known findings are repaired:
+                    // /repo fix "an unchanged content keeps its attributions in place")
+                    oracles.push(oracle("identity_keeps_lines", same, json!({"input": witness, "before": jlines(before), "after": jlines(after)}), "identity"));
+                    // nothing but the order changes when the priors lie in the text
+                    if attrs.iter().all(|a| a.end <= old.len()) {
+                        let key = |a: &Attribution| (a.start, a.end, a.author_id.clone(), a.ts);
+                        let (mut x, mut y): (Vec<_>, Vec<_>) = (attrs.iter().map(key).collect(), out.iter().map(key).collect());
+                        x.sort();
+                        y.sort();
+                        oracles.push(oracle("identity_keeps_ranges", x == y, json!({"input": witness, "out": jattrs(out)}), "identity:ranges"));
+                    }
                 }
             }
             // whitespace-only reformat that keeps the line structure
@@ -806,7 +813,8 @@ fn update_case(old: &str, new: &str, attrs: &[Attribution], author: &str, ts: u1
     }
     emit_case(
         em,
-        json!({"op": "tr_update", "segs": jsegs(&segs), "subst": jpairs(&subst), "moves": jmoves(&moves),
+        json!({"op": "tr_update_attributions", "old": old, "new": new,
+               "segs": jsegs(&segs), "subst": jpairs(&subst), "moves": jmoves(&moves),
                "attrs": jattrs(attrs), "author": author, "ts": ts as u64}),
         imp,
         oracles,
